@@ -44,6 +44,34 @@ CLAIMED["C17"] = dict(
     design="§4 C17",
 )
 
+CLAIMED["C18"] = dict(
+    text="Lean 4 theorems about the executable model of FileReport.generate / bill_of_materials / the spdx option check, for any "
+         "number of file reports and licence entries: C18_sections + C18_file_names + C18_file_block (the File sections are a "
+         "permutation of one block per report and no other FileName entry exists; each block carries the report's name, SPDXID, "
+         "checksum, LicenseConcluded, one LicenseInfoInFile per key, the copyright lines or NONE), C18_generate, C18_describes + "
+         "C18_describes_once (exactly one DESCRIBES relationship per SPDXID), C18_concat_injective + C18_ids_distinct (SPDXIDs pairwise "
+         "distinct given an md5 injective on the project's finite {name ++ checksum}), C18_licenseref (exactly the LicenseRef- entries "
+         "get a LicenseID block with their text), C18_wellformed + C18_lines_physical (under docOk the written lines are read back "
+         "by the tag-value grammar Spec.readDoc as exactly the document's entries), C18_creator (usage error iff --add-license-concluded "
+         "without creator), and C18_equiv_sound_complete / C18_concluded_valid: the truth-table checker BoolExpr.equiv is sound and "
+         "complete for any number of symbols, so every LicenseConcluded the real tool emits is validated per instance (translation "
+         "validation). Tied to the code by generated project trees run through the real `reuse spdx` with every option set: the real "
+         "document must equal the model's document character for character (uuid/time stamp as parameters), the Lean reader must "
+         "agree with an independent reader on the real documents, and an independent oracle checks the property clauses against "
+         "`reuse lint --json`, hashlib.sha1 and a Python truth table.",
+    note="Trusted / not verified: Lean kernel; the harness; hashlib's sha1 and md5 (parameters of the model; uniqueness is conditional on "
+         "md5 injectivity on the project's inputs); license-expression / boolean.py (parse, simplify, render - not modelled, each "
+         "answer validated by the proved checker and by an independent truth table; WITH pairs and ids with '+' are atoms); which files "
+         "are covered and what lint attributes to them are inputs (C03/C04), cross-checked against generator ground truth. "
+         "C18_wellformed carries the decidable side condition docOk (no line feed in names/creators/identifiers, no value mimicking "
+         "<text>, no '</text>' inside a text); the excluded points are run on the real code and listed as two known findings "
+         "(the tag-value format cannot represent them). Duplicate LicenseInfoInFile lines (same key in several expressions) are "
+         "emitted by the tool and are read as a set.",
+    technique="Lean 4 proof (document composer + verified tag-value round trip + certified boolean-equivalence checker) + "
+              "end-to-end model/implementation differential + translation validation per LicenseConcluded",
+    design="§4 C18",
+)
+
 NOT_YET = {}
 
 
